@@ -325,7 +325,8 @@ func checkRegistry(o *options, all []oblOut) []string {
 	var names []string
 	for _, a := range all {
 		have[a.Name] = true
-		if registrable(a.Kind) {
+		if registrable(a.Kind) && !strings.HasSuffix(a.Name, "]") {
+			// positional duplicates ("…inv1[11]") move when a clause is added; only labelled names are pinned
 			names = append(names, a.Name)
 		}
 	}
